@@ -6,7 +6,8 @@ from props import PROPS, TRUSTED_BASE, NOTES, NOT_APPLICABLE
 
 VERIF = os.path.dirname(os.path.dirname(os.path.abspath(__file__)))
 checks = []
-for pid in sorted(PROPS):
+CLAIMED = [p for p in sorted(PROPS) if os.path.exists(os.path.join(VERIF, 'coq', 'theories', 'Properties', p + '.v'))]
+for pid in CLAIMED:
     cfg = PROPS[pid]
     note = NOTES.get(pid, {})
     checks.append({
@@ -36,10 +37,10 @@ m = {
     },
     'engines': [
         {'name': 'coq-model+correspondence', 'path': 'coq/ oracle/ harness/ bin/check',
-         'serves_properties': sorted(PROPS), 'kind_free_text': 'Coq 8.16.1 development (model, spec, proofs, property files), OCaml oracle extracted from it, Go differential harness'},
+         'serves_properties': CLAIMED, 'kind_free_text': 'Coq 8.16.1 development (model, spec, proofs, property files), OCaml oracle extracted from it, Go differential harness'},
     ],
     'checks': checks,
-    'not_applicable': [{'property_id': p, 'reason': r} for p, r in sorted(NOT_APPLICABLE.items()) if p not in PROPS],
+    'not_applicable': [{'property_id': p, 'reason': r} for p, r in sorted(NOT_APPLICABLE.items()) if p not in CLAIMED] + [{'property_id': p, 'reason': 'check under construction: correspondence streams exist, theorems being assembled'} for p in sorted(PROPS) if p not in CLAIMED],
     'notes': 'See DESIGN.md. known_findings.json lists recorded and fixed defects.',
 }
 json.dump(m, open(os.path.join(VERIF, 'MANIFEST.json'), 'w'), indent=1)
